@@ -1619,6 +1619,7 @@ def run(ck: Ck) -> None:
             # FileInfo.write executed in the rejection scenarios (read-only / index out of range / both): premise of c13_guarded_write_is_model,
             # c13_rejected_write_stores_nothing, c13_write_step_is_generated_tables
             'write_validations_all_precede_the_first_store': 'rej_table_ok g_rej_table',
+            'add_file_validates_the_index_before_the_entry_is_created': 'g_add_file_checks_index_first',
             'unrepresentable_names_rejected': 'g_chk_name',
             'instance_satisfies_theorem_premises': 'andb (vcfg_ok (g_vcfg true (Some 1024%N))) (vcfg_ok (g_vcfg false None))',
             'ext_split_is_at_the_last_dot': 'split_kind_ok g_ext_split',
